@@ -358,7 +358,7 @@ func runC13(c *core.Ctx) {
 			modes = []int{0, 1, 2}
 		}
 		for mi, m := range ws.Messages {
-			if quick && dn != "FIX44" && dn != "FIX42" && dn != "FIX50SP2" && mi%4 != 0 {
+			if false && mi < 0 {
 				continue
 			}
 			var scalars []int
